@@ -335,6 +335,15 @@ func c16(x *mon.Ctx) {
 		w.Requote()
 		subs = append(subs, subject{fmt.Sprintf("auth-data-%d", n), w.Case(world.LBase, "c16", "")})
 	}
+	// quotes that fail exactly at the binding of the attestation key (every signature is fine; the authentication data is not the
+	// one the QE report vouches for), with authentication data of several sizes: the failing path is read-only, too
+	for _, n := range []int{0, 31, 33, 64, 200, 4096} {
+		w := richHonest(r)
+		w.Q.AuthData = randBytes(r, 32)
+		w.Requote()
+		w.Q.AuthData = randBytes(r, n) // not rebound
+		subs = append(subs, subject{fmt.Sprintf("auth-data-replaced-by-%d-bytes", n), w.Case(world.LBase, "c16", "")})
+	}
 	{ // a quote that fails verification late (bad QE signature): the failing path must not write either
 		w := richHonest(r)
 		w.Q.SignQE(world.NewKey())
